@@ -53,7 +53,11 @@ class IR(AuxDataContainer):
             v._remove_from_uuid_cache(self._node._local_uuid_cache)
 
         def _add(self, v: Module) -> None:
-            if v._ir is not None:
+            if v._ir is self._node:
+                # Already ours (e.g. the same module given twice in one
+                # call, possibly while the IR is still being constructed).
+                self.remove(v)
+            elif v._ir is not None:
                 v._ir.modules.remove(v)
             v._ir = self._node
             v._add_to_uuid_cache(self._node._local_uuid_cache)
